@@ -20,6 +20,9 @@ type blockRec struct {
 type partialInst struct {
 	m *u.MapPollard
 	R map[u.Hash]bool
+	// lazy: Verify(remember) the deletions only when some deleted leaf is not remembered already;
+	// otherwise the block is applied from what the forest itself stores
+	lazy bool
 }
 
 func sortedSet(R map[u.Hash]bool) []u.Hash {
@@ -194,7 +197,7 @@ func genC06(cfg runCfg, e *emitter, rng *rand.Rand) {
 		for _, tr := range []uint8{0, 63} {
 			m := u.NewMapPollard(false)
 			m.TotalRows = tr
-			parts = append(parts, &partialInst{&m, map[u.Hash]bool{}})
+			parts = append(parts, &partialInst{m: &m, R: map[u.Hash]bool{}})
 		}
 		deadImpl := map[string]bool{}
 		var hist []blockRec
